@@ -111,6 +111,7 @@ static const char *c3_vtag(const fn_t *fn)
 
 static int c3_errno_in(int e, int mask)
 {
+    if (e == VF_ERRFN_ERRNO) return 0;	/* left behind by the callback */
     if ((mask & EM_INVAL) && e == EINVAL) return 1;
     if ((mask & EM_NOENT) && e == ENOENT) return 1;
     if ((mask & EM_BADMSG) && e == EBADMSG) return 1;
